@@ -13,7 +13,7 @@ GEN = ('static analysis of the current source: %s. Each rule instance is a neces
        '(tolerances, "for all angles") are not decided.')
 
 META = {
-    'C01': dict(text=GEN % 'closed-producer / normaliser / rotation-table rules (R12, R13, R15, R16); the transpose of a member is closed only where no SE(n) receiver is possible', sec='4 C01',
+    'C01': dict(text=GEN % 'closed-producer / normaliser / rotation-table rules (R12, R13, R15, R16); the transpose of a member is closed only where no SE(n) receiver is possible, also through the reaching definitions of a local list', sec='4 C01',
                 tech='AST term-table matching, must-pass-through (normaliser) dataflow, closed-producer rule at unchecked constructor sites'),
     'C02': dict(text=GEN % 'operand order of composition lambdas, division = product with inverse, structured-inverse tables, power/prod folds, information dependence of the logarithm used by twist composition, no hidden state in the classes involved (R15, R16, R17, R7, R9)', sec='4 C02',
                 tech='AST term/word normalisation against mathematical tables, abstract interpretation of operator dispatch'),
@@ -23,13 +23,13 @@ META = {
                 tech='sibling cross-check over resolved callees, term tables, symbolic writer/reader composition over polynomial normal forms'),
     'C05': dict(text=GEN % 'documented axis orders as rotation words, order-name tables agree, unit/flip/order threading, singular-branch agreement, term-by-term composition of tr2rpy/tr2eul with the rpy2r/eul2r words, double-cover parity of the quaternion accessors (R12, R10, R8, R16, R19)', sec='4 C05',
                 tech='rotation-word abstract evaluation, writer/reader composition over polynomial normal forms (no evaluation, no solver), option-threading dataflow, parity analysis'),
-    'C06': dict(text=GEN % 'lift-multiply-project and sandwich routes, operand integrity in the array branches, pose-left/point-right operand roles of every @, the unit-dual-quaternion route composed in the non-commutative quaternion algebra equals r p r~ + t, no hidden state in the classes involved (R16, R22, R9, R2, R1)', sec='4 C06',
+    'C06': dict(text=GEN % 'lift-multiply-project and sandwich routes, operand integrity in the array branches, pose-left/point-right operand roles of every @, the unit-dual-quaternion route composed in the non-commutative quaternion algebra equals r p r~ + t over the pair (r, t r / 2) the constructor is shown to store and SE3() to read back, no hidden state in the classes involved (R16, R22, R9, R2, R1)', sec='4 C06',
                 tech='routing patterns over resolved calls, reaching-definition check of operands'),
     'C07': dict(text=GEN % 'predicate atoms (R4), validation dominates every store into data (R5), constructors define state on every exit (R3), dual-mode transl/transl2 calls reached only with a vector argument (R20), caller data reaches no construction that skips the check (R15c transporters), a constructor argument that may be left out is used as a value only where it is known to be given (R10m), no silent None (R2)', sec='4 C07',
                 tech='pattern-matched predicate atoms, must-pass-through dataflow on the CFG, typestate of constructors'),
-    'C08': dict(text='static analysis: the finite operator x class x class table (10 operators, 21 kinds) is enumerated completely and each cell is decided by abstract interpretation of the resolved dunder bodies over the class-kind lattice, against the documented table; cells that depend on numeric shape tests are reported as undecided. Plus R6d (every value return of the pose x array branch is guarded by the pose dimension, which is what rejects coefficient arrays forwarded by unguarded reflected operators) and R2/R1/R7 over every binary dunder.', sec='4 C08',
+    'C08': dict(text='static analysis: the finite operator x class x class table (10 operators, 21 kinds) is enumerated completely and each cell is decided by abstract interpretation of the resolved dunder bodies over the class-kind lattice, against the documented table; cells that depend on numeric shape tests are reported as undecided. Plus R6d (every value return of the pose x array branch is guarded by the pose dimension, which is what rejects coefficient arrays forwarded by unguarded reflected operators), R6g (every value return of a reflected operator is dominated by a type test of its left operand or hands the pair to the forward method), R6s (a same-class test written as isinstance(self, other.__class__) does not admit a base-class operand of the same element shape where that pair must raise) and R2/R1/R7 over every binary dunder.', sec='4 C08',
                 tech='abstract interpretation of operator dispatch (MRO, reflected methods, three-valued isinstance) over class kinds; exhaustive table'),
-    'C09': dict(text=GEN % 'four-case broadcasting structure of the two helpers, every vectorised operator reaches a helper, length guards and element kinds in per-value accessors, branch agreement, accessor slot table, element slices per concrete class, results built from the values of the receiver, two-operand zip under a length-equality fact (R8z), comparison/arithmetic operators return the helper result, helper calls receive (left, right) in order (R7o), unit conversion reaches scalar and vector motion parameters alike (R10u) (R7, R8)', sec='4 C09',
+    'C09': dict(text=GEN % 'four-case broadcasting structure of the two helpers, every vectorised operator reaches a helper, length guards and element kinds in per-value accessors, branch agreement, accessor slot table, element slices per concrete class, results built from the values of the receiver, two-operand zip under a length-equality fact (R8z), specialised arms of an operator compute the element operation of its general arm (R8f), list-valued accessors as truth values only under len(self) == 1 (R8t), comparison/arithmetic operators return the helper result, helper calls receive (left, right) in order (R7o), unit conversion reaches scalar and vector motion parameters alike (R10u) (R7, R8)', sec='4 C09',
                 tech='guard-fact (must) dataflow on the CFG, element-kind abstract domain, call-graph reachability'),
     'C10': dict(text='static analysis: list equivalence by delegation -- index/slice delegate to list or slice.indices, class-equality and single-value guards dominate every list mutation, no list primitive overridden below UserList, Empty/Alloc/pop shapes; with CPython list/UserList trusted this implies equality with a Python list for every operation history.', sec='4 C10',
                 tech='dominance (must-fact) analysis of guards before mutations, who-defines check over the MRO, delegation patterns'),
@@ -47,7 +47,7 @@ META = {
                 tech='interprocedural taint analysis from :SymPy: supported marks to numeric-only sinks'),
     'C17': dict(text='static analysis: whole-package may-alias effect analysis with function summaries to a fixpoint; no in-place write can reach storage that may alias a parameter, the receiver of a non-mutating method or module state; random sources only in the documented random constructors. This is the structural content of the property; nothing is executed.', sec='4 C17',
                 tech='interprocedural may-alias / effect (purity) dataflow analysis'),
-    'C18': dict(text=GEN % 'twist constructor/accessor tables, unit conversion reaches every use of theta in exp, element slices of the prismatic/revolute/unit predicates per concrete class, definitions of the zero/unit predicates, reflected scalar product (R16, R10, R6, R8, R4)', sec='4 C18',
+    'C18': dict(text=GEN % 'twist constructor/accessor tables, unit conversion reaches every use of theta in exp, element slices of the prismatic/revolute/unit predicates per concrete class, those list-valued predicates used as a truth value only under len(self) == 1 (R8t), definitions of the zero/unit predicates, reflected scalar product (R16, R10, R6, R8, R4)', sec='4 C18',
                 tech='term tables, must-pass-through (getunit) dataflow, operator table'),
     'C19': dict(text=GEN % 'one moment convention and one plane convention across writers and readers, sign-invariance of the parallelism test, point/column branch agreement with the caller tolerance, line-plane intersection point and parameter and line-line distance composed with the class conventions in component-wise vector algebra, no hidden state (R16, R23, R10r, R9)', sec='4 C19',
                 tech='term tables with sign (parity) analysis under negation of an operand'),
